@@ -79,9 +79,9 @@ func NewEventLoop(opts ...Option) *EventLoop {
 	vm.Set("setTimeout", loop.setTimeout)
 	vm.Set("setInterval", loop.setInterval)
 	vm.Set("setImmediate", loop.setImmediate)
-	vm.Set("clearTimeout", loop.clearTimeout)
-	vm.Set("clearInterval", loop.clearInterval)
-	vm.Set("clearImmediate", loop.clearImmediate)
+	vm.Set("clearTimeout", loop.jsClearTimeout)
+	vm.Set("clearInterval", loop.jsClearInterval)
+	vm.Set("clearImmediate", loop.jsClearImmediate)
 
 	return loop
 }
@@ -481,6 +481,30 @@ func (loop *EventLoop) clearInterval(i *Interval) {
 		loop.jobCount--
 		i.doCancel()
 	}
+}
+
+// The JavaScript clear* functions accept only the handle their own set* function returned; anything else
+// (null, undefined, a handle of another kind, a foreign object, a primitive) is ignored, as in Node.
+
+func (loop *EventLoop) jsClearTimeout(call goja.FunctionCall) goja.Value {
+	if t, ok := call.Argument(0).Export().(*Timer); ok {
+		loop.clearTimeout(t)
+	}
+	return nil
+}
+
+func (loop *EventLoop) jsClearInterval(call goja.FunctionCall) goja.Value {
+	if i, ok := call.Argument(0).Export().(*Interval); ok {
+		loop.clearInterval(i)
+	}
+	return nil
+}
+
+func (loop *EventLoop) jsClearImmediate(call goja.FunctionCall) goja.Value {
+	if i, ok := call.Argument(0).Export().(*Immediate); ok {
+		loop.clearImmediate(i)
+	}
+	return nil
 }
 
 func (loop *EventLoop) removeJob(job *job) {
